@@ -140,8 +140,10 @@ var oddForms = []string{"no-int-part", "nine-decimals"}
 // batchFamily: full product of payment-line count x blank-line position x blank
 // kind x line ending x final newline; comments, padding, number formats,
 // duplicate addresses, destination kinds, -send alongside and the wallet
-// configuration cycle (thorough: the product is also taken with every comment
-// and padding form).
+// configuration cycle (thorough: each member of the product also with every
+// comment form and with every padding form); plus, for files without blank lines,
+// the product of line count x line ending x final newline x comment form
+// (x padding form in thorough).
 func batchFamily(startIdx int, thorough bool) []*Case {
 	var out []*Case
 	atypes := []string{"p2kh", "segwit", "bech32", "tap"}
@@ -198,13 +200,17 @@ func batchFamily(startIdx int, thorough bool) []*Case {
 						if n%13 == 12 {
 							pps = []string{pads[3+(n/13)%5]}
 						}
-						if thorough {
-							cps, pps = comments, pads
+						if !thorough {
+							add(nl, &BatchLayout{EOL: eol, FinalNewline: fin, Blank: bl, BlankKind: bk, Comment: cps[0][0], CommentPos: cps[0][1], Pad: pps[0], PadLine: n})
+							continue
 						}
-						for _, cp := range cps {
-							for _, pd := range pps {
-								add(nl, &BatchLayout{EOL: eol, FinalNewline: fin, Blank: bl, BlankKind: bk, Comment: cp[0], CommentPos: cp[1], Pad: pd, PadLine: n})
-							}
+						// thorough: every comment form (padding cycling) and every padding form (comments cycling)
+						for _, cp := range comments {
+							add(nl, &BatchLayout{EOL: eol, FinalNewline: fin, Blank: bl, BlankKind: bk, Comment: cp[0], CommentPos: cp[1], Pad: pads[n%3], PadLine: n})
+						}
+						for _, pd := range pads {
+							cp := comments[[]int{0, 1, 2, 5}[n%4]]
+							add(nl, &BatchLayout{EOL: eol, FinalNewline: fin, Blank: bl, BlankKind: bk, Comment: cp[0], CommentPos: cp[1], Pad: pd, PadLine: n})
 						}
 					}
 				}
